@@ -392,6 +392,42 @@ def obligations(tier):
     for pi_ in ((1, 3, 4) if tier == 'quick' else range(6)):
         obs.append(Obligation(f'chform.reindex.perm{pi_}', lambda cx, pi_=pi_: reindex_body(cx, pi_=pi_), twin=(lambda cx, pi_=pi_: reindex_body(cx, wrong=True, pi_=pi_)) if pi_ in (1, 3) else None, opts={'weight': 30, 'vc_timeout_ms': 120000}, desc='StabilizerStateChForm.reindex(axes) for every permutation of 3 qubits from an ARBITRARY valid CH-form state (F, G, M, gamma, v, s symbolic under the representation invariant): every amplitude <y|reindexed> equals the amplitude of the correspondingly permuted basis state of the original'))
 
+    CHG = [
+        ('X', cirq.X, 1), ('Y', cirq.Y, 1), ('Z', cirq.Z, 1), ('H', cirq.H, 1), ('S', cirq.S, 1), ('Sdg', cirq.S**-1, 1),
+        ('sqrtX', cirq.X**0.5, 1), ('sqrtXdg', cirq.X**-0.5, 1), ('sqrtY', cirq.Y**0.5, 1), ('sqrtYdg', cirq.Y**-0.5, 1),
+        ('CZ', cirq.CZ, 2), ('CX', cirq.CX, 2), ('Zshift', cirq.ZPowGate(exponent=0.5, global_shift=0.25), 1), ('Xshift', cirq.XPowGate(exponent=1.0, global_shift=-0.5), 1),
+        ('SWAP', cirq.SWAP, 2), ('gphase', cirq.global_phase_operation(1j), 0),
+    ]
+
+    def chgate_body(cx, wrong=False, gi=0):
+        from oracles import embed as EM_
+
+        n = 2
+        gname, g, k = CHG[gi]
+        st = sym_ch(cx, n)
+        old = st.copy()
+        qs = cirq.LineQubit.range(n)
+        axes = list(itertools.permutations(range(n), k))
+        ax = axes[cx.choose('axes', len(axes))]
+        sim = cirq.StabilizerChFormSimulationState(qubits=qs, prng=np.random.RandomState(0), initial_state=st)
+        op = g if k == 0 else g.on(*[qs[a] for a in ax])
+        cirq.act_on(op, sim)
+        new = sim.state
+        U = EM_.embed_matrix(cirq.unitary(g) if k else cirq.unitary(op), list(ax), n) if k else np.eye(2**n) * complex(cirq.unitary(op)[0, 0])
+        x = cx.choose('x', 2**n)
+        exp = 0
+        for y in range(2**n):
+            if abs(U[x, y]) > 1e-12:
+                exp = exp + complex(U[x, y]) * old.inner_product_of_state_and_x(y)
+        if wrong:
+            exp = exp * (-1)
+        cx.close(new.inner_product_of_state_and_x(int(x)), exp, label=f'chform.act_on[{gname}] amplitude (incl. global phase)')
+
+    for gi, (gname, _g, _k) in enumerate(CHG):
+        if tier == 'quick' and gname not in ('H', 'S', 'CZ', 'CX', 'sqrtY', 'Xshift', 'gphase'):
+            continue
+        obs.append(Obligation(f'chform.gate.{gname}', lambda cx, gi=gi: chgate_body(cx, gi=gi), twin=(lambda cx, gi=gi: chgate_body(cx, wrong=True, gi=gi)) if gname in ('H', 'CZ', 'S') else None, opts={'weight': 10, 'vc_timeout_ms': 120000}, desc='cirq.act_on(gate, StabilizerChFormSimulationState) from an ARBITRARY valid 2-qubit CH-form state (all of F, G, M, gamma, v, s symbolic under the representation invariant): every amplitude of the new state equals the matrix of the gate applied to the amplitudes of the old state, INCLUDING the global phase'))
+
     for n_ in ([2] if tier == 'quick' else [2, 3]):
         obs.append(
             Obligation(
@@ -420,6 +456,7 @@ def main(tier, seed=0, replay=None, only=None, procs=None):
         'act_on_gate_menu': 'X,Y,Z half-integer powers, H, CZ, CX, SWAP integer powers, S, ISWAP, shifted gates, PhasedXZ/PhasedX Cliffords, CY, YY, XX**0.5, ZZ**0.5, all 24 SingleQubitCliffordGate',
         'measure': 'n = 2 (quick) / 2, 3 (thorough), every qubit, arbitrary valid tableau, both coin outcomes',
         'chform': 'reindex for 3 (quick: one swap and both 3-cycles) / all 6 (thorough) permutations of 3 qubits from an arbitrary valid CH-form state',
-        'outside': ['CliffordTableau.then / inverse', 'CH-form gate rules, measurement, kron', 'CliffordGate group laws', 'n > 3'],
+        'chform_gates': '7 (quick) / 16 (thorough) gates (Paulis, H, S, sqrt X/Y and inverses, CZ, CX, SWAP, shifted gates, global phase) on an arbitrary valid 2-qubit CH state, all placements, every amplitude incl. global phase',
+        'outside': ['CliffordTableau.then / inverse', 'CH-form measurement (project_Z), kron', 'CliffordGate group laws', 'n > 3'],
     }
     return run_check(PID, tier, 'checks.C13', SHIMS, LEVEL, BASE_ASSUMPTIONS, bounds, seed=seed, replay=replay, only=only, procs=procs)
